@@ -165,8 +165,11 @@ DEFVALS = [[('NUMBER', 1)], [('HEX_STRING', "'0A'h")], [tok.LC('fast')], [('{', 
 def _release(bi):
     """a TC module and a module using it; `bi` selects what the SAME type name stands for in this release"""
     tcmod = m.module('TC-MIB', [], [m.textual_convention('Level', seq(BASES[bi]))])
+    # ... and where the module's subtree hangs (a draft under one arc, the published module under another)
     dev = m.module('DEV-MIB', [('TC-MIB', ['Level'])],
-                   [m.object_type('lvl', seq('Level'), m.oid('iso', 3), descr=m.text('d'), defval=DEFVALS[bi])])
+                   [m.value_decl('devRoot', m.oid('iso', 3 + bi)),
+                    m.object_type('lvl', seq('Level'), m.oid('devRoot', 1), descr=m.text('d'), defval=DEFVALS[bi]),
+                    m.object_type('oidObj', seq('OBJECT IDENTIFIER'), m.oid('devRoot', 2), descr=m.text('d'), defval=[tok.LC('devRoot')])])
     return [tok.parse_tokens(tcmod)[0], tok.parse_tokens(dev)[0]]
 
 
